@@ -28,6 +28,9 @@ type loopInfo struct {
 	all     bool
 	allocs  bool
 	headEnv map[string]Val
+	// writes: per heap, the loop-invariant roots written through; unknownW: heaps written through other pointers
+	writes   map[string][]ssa.Value
+	unknownW map[string]bool
 }
 
 type deferRec struct {
@@ -442,7 +445,7 @@ func findLoops(fn *ssa.Function) (map[*ssa.BasicBlock]*loopInfo, map[[2]*ssa.Bas
 				back[[2]*ssa.BasicBlock{b, s}] = true
 				li := loops[s]
 				if li == nil {
-					li = &loopInfo{head: s, blocks: map[*ssa.BasicBlock]bool{s: true}, cells: map[*ssa.Alloc]bool{}, heaps: map[string]bool{}}
+					li = &loopInfo{head: s, blocks: map[*ssa.BasicBlock]bool{s: true}, cells: map[*ssa.Alloc]bool{}, heaps: map[string]bool{}, writes: map[string][]ssa.Value{}, unknownW: map[string]bool{}}
 					loops[s] = li
 				}
 				li.latches = append(li.latches, b)
